@@ -88,3 +88,10 @@ impl F64 {
     #[verifier::external_body]
     pub fn round(self) -> (r: F64) ensures self.r() >= 0real ==> r.r() == rfloor(self.r() + 0.5real) as real, r.fin() == self.fin() { unimplemented!() }
 }
+impl F64 {
+    // f32/f64::clamp on finite bounds lo <= hi
+    #[verifier::external_body]
+    pub fn clamp(self, lo: F64, hi: F64) -> (r: F64) requires lo.r() <= hi.r()
+        ensures r.r() == (if self.r() < lo.r() { lo.r() } else if self.r() > hi.r() { hi.r() } else { self.r() }), r.fin() == self.fin()
+    { unimplemented!() }
+}
